@@ -323,8 +323,30 @@ fn apply(w: &mut W, op: Op, rep: &mut Report, hist: &[Op]) -> bool {
 }
 
 fn invariants(w: &W, rep: &mut Report, hist: &[Op]) {
-    let ctx = json!({"g": w.g, "history": hist.iter().map(|o| format!("{:?}", o)).collect::<Vec<_>>()});
-    let last = hist.last().map(|o| format!("{:?}", o)).unwrap_or_default();
+    invariants_tagged(w, rep, hist, "")
+}
+
+/// Every output of the wallet's key that the ledger holds unspent is announced to the wallet once
+/// more, the way a host application restores or re-syncs saved slips (WasmWallet::add_slip ->
+/// Wallet::add_slip). The wallet knows all of them: nothing may change, in particular outputs it
+/// committed to a pending transaction stay committed.
+fn announce_again(w: &mut W, rep: &mut Report, hist: &[Op]) {
+    let me = w.p.node.key.public;
+    let tip = w.p.tip_id;
+    let outs: Vec<Slip> = w.p.ledger.unspent_of(&me).into_iter().filter(|s| s.slip_type != SlipType::BlockStake && s.block_id + w.g > tip).collect();
+    {
+        let mut wal = w.p.node.wallet.try_write().unwrap();
+        for s in outs.iter() {
+            wal.add_slip(s.block_id, s.tx_ordinal, s, true, None);
+        }
+    }
+    rep.evaluations += 1;
+    invariants_tagged(w, rep, hist, "/outputs-announced-again");
+}
+
+fn invariants_tagged(w: &W, rep: &mut Report, hist: &[Op], tag: &str) {
+    let ctx = json!({"g": w.g, "history": hist.iter().map(|o| format!("{:?}", o)).collect::<Vec<_>>(), "probe": tag});
+    let last = format!("{}{}", hist.last().map(|o| format!("{:?}", o)).unwrap_or_default(), tag);
     let wal = w.p.node.wallet.try_read().unwrap();
     let sum: u128 = wal.unspent_slips.iter().map(|k| wal.slips.get(k).map(|s| s.amount as u128).unwrap_or(0)).sum();
     let missing = wal.unspent_slips.iter().filter(|k| !wal.slips.contains_key(*k)).count();
@@ -736,7 +758,10 @@ pub fn main(tier: Tier, _replay: Option<String>) -> i32 {
             }
             invariants(&w, &mut r, h);
             r.traces_validated += 1;
-            (r, Some(state_digest(&w)))
+            let d = state_digest(&w);
+            let mut w = w;
+            announce_again(&mut w, &mut r, h);
+            (r, Some(d))
         });
         let mut next = vec![];
         for (h, (r, d)) in cands.into_iter().zip(results.into_iter()) {
